@@ -72,6 +72,14 @@ Theorem program_bounds_sound : forall l v b, bounds_ok l = true -> In (v, b) l -
 Proof. exact ImageProofs.bounds_ok_l. Qed.
 Print Assumptions program_bounds_sound.
 
+(* the other place that links rules into forward chains: finalizeTable moves context rules to the bucket of their
+   case-folded characters with its own loop; its REGENERATED condition agrees with the insertion condition the
+   checker orders forward chains by *)
+Theorem rebucketing_uses_the_insertion_order : forall nl rl rop,
+  rebucket_before nl CTO_Context rl rop = fwd_multi_before nl CTO_Context rl rop.
+Proof. exact ImageProofs.rebucket_is_insertion_l. Qed.
+Print Assumptions rebucketing_uses_the_insertion_order.
+
 (* ---- the allocator, for every sequence of sizes *)
 Definition arena_run (hdr : Z) (sizes : list Z) : arena :=
   fold_left (fun ar n => fst (arena_alloc hdr ar n)) sizes (arena_init hdr).
